@@ -566,6 +566,15 @@ retry:
         continue;
       }
 
+      if (traits::acquire_value(acc, std::memory_order_acquire)) {
+        // the value has been acquired only now -> ensure that the item has not been deleted in the meantime
+        const auto state3 = bucket.state.load(std::memory_order_relaxed);
+        if (state.version() != state3.version()) {
+          state = state3;
+          goto retry;
+        }
+      }
+
       result = std::move(acc);
       return true;
     }
@@ -589,6 +598,14 @@ retry:
       }
 
       if (traits::compare_nontrivial_key(acc, key)) {
+        if (traits::acquire_value(acc, std::memory_order_acquire)) {
+          // the value has been acquired only now -> ensure that the item has not been deleted in the meantime
+          state2 = bucket.state.load(std::memory_order_relaxed);
+          if (state.version() != state2.version()) {
+            state = state2;
+            goto retry;
+          }
+        }
         result = std::move(acc);
         return true;
       }
